@@ -124,6 +124,9 @@ def main():
     for name in undecided:
         if baseline.get(name) == fw.DISCHARGED:
             new_undecided.append(name)
+        elif name not in baseline and name.startswith("C20.full_init."):
+            # an allocation site that does not exist on the committed tree and cannot be proved fully assigned: reported like a lost proof
+            new_undecided.append(name)
 
     for name, f in known:
         print(f"KNOWN-FINDING: property={prop} obligation={name} {f['what']}")
